@@ -1,3 +1,80 @@
-(* placeholder until the proofs are in place *)
-From Cobra.Core Require Import Model.
-Example C01_placeholder : True. Proof. exact I. Qed.
+(* C01 — the solver always holds exactly the model's flux-balance problem.
+   This file only states the property theorems and prints their assumptions. *)
+From Coq Require Import ZArith QArith Qcanon List Bool.
+From Cobra.LP Require Import Defs Fba.
+From Cobra.Core Require Import Model Inv Preserve FluxRange RestoreBase RestoreOps Restore.
+Import ListNotations.
+Open Scope Z_scope.
+
+(* What "in sync" means, spelled out: exactly the two variables of every reaction in the model, with the
+   bounds of Reaction.update_variable_bounds; exactly one row per metabolite in the model, whose coefficients
+   are the current stoichiometry (c on the forward, -c on the reverse variable); an objective that is a
+   function of net fluxes and mentions no absent reaction.                                            *)
+Theorem C01_lpsync_meaning : forall s, LPSync s ->
+  (forall r, vin s (F r) = rin s r /\ vin s (R r) = rin s r) /\
+  (forall r, rin s r = true ->
+     (vlb s (F r), vub s (F r), (vlb s (R r), vub s (R r))) = Model.split_bounds (lb s r) (ub s r)) /\
+  (forall m, cin s m = min s m) /\
+  (forall m r, co s m (F r) = (if rin s r && min s m then sto s r m else q0) /\
+               co s m (R r) = (if rin s r && min s m then (- sto s r m)%Qc else q0)) /\
+  (forall r, oc s (R r) = (- oc s (F r))%Qc /\ (rin s r = false -> oc s (F r) = q0)).
+Proof. intros s H. exact H. Qed.
+Print Assumptions C01_lpsync_meaning.
+
+(* under those variable bounds the net flux forward - reverse ranges over exactly [lb, ub] *)
+Theorem C01_net_flux_range : forall lb ub (v : Q),
+  valid (to_e lb) (to_e ub) ->
+  (inb (to_e lb, to_e ub) v <->
+   exists f r, inb (to_e2 (fst (Model.split_bounds lb ub))) f /\
+               inb (to_e2 (snd (Model.split_bounds lb ub))) r /\ (v == f - r)%Q).
+Proof. exact core_net_flux_range. Qed.
+Print Assumptions C01_net_flux_range.
+
+Theorem C01_init : forall rs ms, Inv (init_u rs ms) /\ LPSync (init_u rs ms).
+Proof. intros rs ms. split; [apply init_Inv|apply Inv_LPSync, init_Inv]. Qed.
+Print Assumptions C01_init.
+
+(* every operation of the kernel, succeeding or raising, keeps the solver in sync (and the cross
+   references consistent, which the argument needs)                                            *)
+Theorem C01_step : forall s o, Inv s -> op_ok s o ->
+  Inv (fst (step s o)) /\ LPSync (fst (step s o)).
+Proof. intros s o HI Hok. pose proof (step_Inv s o HI Hok) as H. split; [exact H|apply Inv_LPSync, H]. Qed.
+Print Assumptions C01_step.
+
+(* every history of such operations, from an empty model *)
+Fixpoint ok_run (s : st) (ops : list op) : Prop :=
+  match ops with [] => True | o :: ops' => op_ok s o /\ ok_run (fst (step s o)) ops' end.
+Theorem C01_history : forall ops s, Inv s -> ok_run s ops -> Inv (run ops s) /\ LPSync (run ops s).
+Proof.
+  induction ops as [|o ops IH]; intros s HI Hok; cbn [run fold_left ok_run] in *.
+  - split; [exact HI|apply Inv_LPSync, HI].
+  - destruct Hok as [H1 H2]. apply (IH (fst (step s o))); [apply step_Inv; assumption|exact H2].
+Qed.
+Print Assumptions C01_history.
+
+(* ... and with `with model:` blocks nested to any depth in between (for the operations whose undo is
+   proved in Core/RestoreOps.v): leaving a block gives back the state at its entry, which was in sync *)
+Theorem C01_history_with_contexts : forall l s, Inv s -> V s -> ok_items s l ->
+  Inv (run_items s l) /\ LPSync (run_items s l).
+Proof.
+  intros l s HI HV Hok.
+  assert (Hl : Forall good l) by (apply Forall_forall; intros i _; apply all_good).
+  destruct (good_list l Hl s HI HV Hok) as [_ [H _]]. split; [exact H|apply Inv_LPSync, H].
+Qed.
+Print Assumptions C01_history_with_contexts.
+
+(* non-vacuity: a reaction A -> 2 B with bounds (-5, 10) added to an empty model, then knocked out *)
+Definition q (z : Z) : Qc := Q2Qc (inject_Z z).
+Definition demo : st :=
+  run [NewRxn 0 (Fn (q (-5))) (Fn (q 10)) [(0, q (-1)); (1, q 2)]; AddRxn 0; SetObj [(0, q 1)]] (init_u [0] [0; 1]).
+Example C01_demo :
+  vin demo (F 0) = true /\ vub demo (F 0) = Fn (q 10) /\ vub demo (R 0) = Fn (q 5) /\
+  co demo 1 (F 0) = q 2 /\ co demo 1 (R 0) = q (-2) /\ cin demo 0 = true /\ oc demo (R 0) = q (-1).
+Proof. vm_compute. repeat split. Qed.
+Example C01_demo_ok :
+  ok_run (init_u [0] [0; 1]) [NewRxn 0 (Fn (q (-5))) (Fn (q 10)) [(0, q (-1)); (1, q 2)]; AddRxn 0; SetObj [(0, q 1)]].
+Proof.
+  cbn [ok_run]. unfold op_ok, in_univ. split; [split; [|exact I]|split; [split; [|exact I]|split; [split; exact I|exact I]]].
+  - intros m Hm. exact Hm.
+  - left. reflexivity.
+Qed.
